@@ -197,7 +197,7 @@ theorem pkg_counterexample :
     load conv0 env0 pkgsBad sHost none [impLine, tLine] [] = .error (.internal "TypeError") := by
   rw [load_no_overrides]
   unfold loadTail
-  simp only [parseLines_cons]
+  simp only [Option.map_none, parseLines_cons]
   have := host_import 64 [] none (0 + 1)
   unfold stHost0 at this
   rw [this]
@@ -254,7 +254,7 @@ theorem misnamed_counterexample :
     load conv0 env0 pkgs0 sMisnamed none [aLine] [] = .error (.internal "AttributeError") := by
   rw [load_no_overrides]
   unfold loadTail
-  simp only [parseLines_cons]
+  simp only [Option.map_none, parseLines_cons]
   have := misnamed_open 64 [] none (0 + 1)
   unfold stM0 topM at this
   rw [this]
@@ -284,7 +284,7 @@ theorem wrongKey_counterexample :
     load conv0 env0 pkgs0 sWrongKey none ["<a/>".toList] [] = .error (.internal "AttributeError") := by
   rw [load_no_overrides]
   unfold loadTail
-  simp only [parseLines_cons, stepLine_open _ _ _ _ _ _ _ _ _ _ _ shape_a]
+  simp only [Option.map_none, parseLines_cons, stepLine_open _ _ _ _ _ _ _ _ _ _ _ shape_a]
   have hg : getsectioninfo sWrongKey sWrongKey.top "a".toList none = .error (.internal "AttributeError") := by
     simp [getsectioninfo, getsectioninfo.go, getsectioninfo.goUnkeyed, sWrongKey, sch]
   have h2 : sWrongKey.gettype "a".toList = some (.concrete (sty "a".toList [])) := rfl
